@@ -88,7 +88,7 @@ PROPS = {
         not_covered=[
             'value preservation rests on the assumed http::HeaderMap multimap contract (A-http-20..28) and the base64 inverse axioms (A-b64-01: both engines decode padded and unpadded input); the two engine constants of tonic/src/util.rs are checked against that assumption in unit b64cfg (standard alphabet; STANDARD pads, STANDARD_NO_PAD does not; both decode padded and unpadded input)',
             'end-to-end transport of the header block (hyper/h2/hpack)',
-            'Keys::next and Values::next are under contract like Iter::next (each key / value is presented on the side its name says); get_all / get_all_bin, GetAll::iter and ValueIter::next are under contract too (every value of the key, in order, never across the partition), for all five key types; entry / iter_mut / values_mut / get_mut accessors, MetadataKey FromStr, MetadataValue FromStr/to_str and the String impls of the sealed key traits are not under contract in this build',
+            'Keys::next and Values::next are under contract like Iter::next (each key / value is presented on the side its name says); get_all / get_all_bin, GetAll::iter and ValueIter::next are under contract too (every value of the key, in order, never across the partition), for all five key types, and so are get_mut / get_bin_mut, IterMut::next and ValuesMut::next; the entry API (entry / entry_bin, OccupiedEntry / VacantEntry), ValueDrain / ValueIterMut, MetadataKey FromStr, MetadataValue FromStr/to_str and the String impls of the sealed key traits are not under contract in this build',
             'the repr(transparent) pointer casts unchecked_from_header_*_ref are trusted (A-tonic-unsafe-01)',
         ]),
     'C05': dict(
